@@ -61,7 +61,9 @@ func harnessC09Config() {
 	Subscribe(bus, func(e *evA) { peek() })
 	Subscribe(bus, func(e evNamed) { peek() })
 	Subscribe(bus, func(e evDyn) { peek() })
+	Subscribe(bus, func(e evOwnBuf) { peek() })
 
+	var ownBuf []byte
 	type want struct {
 		typ  string
 		n    int
@@ -70,10 +72,18 @@ func harnessC09Config() {
 	}
 	var wants []want
 	for i := 0; i < K; i++ {
-		kind := vInt(0, 4)
+		kind := vInt(0, 5)
 		n := vInt(-5, 5)
 		seenAtHandler = -1
 		switch kind {
+		case 5:
+			// an event that encodes itself into a buffer it keeps reusing: the record must not
+			// change when the publisher scribbles over that buffer afterwards
+			e := evOwnBuf{N: n, buf: &ownBuf}
+			Publish(bus, e)
+			other, _ := json.Marshal(evA{N: 77})
+			ownBuf = append(ownBuf[:0], other...)
+			wants = append(wants, want{EventType(e), n, "", 5})
 		case 4:
 			// a nil pointer is an event like any other: its record holds JSON null
 			var e *evA
@@ -121,6 +131,10 @@ func harnessC09Config() {
 			vAssert(d.N == wants[i].n && d.S == wants[i].s, "record-decodes-to-published-value")
 		case 2:
 			var d evNamed
+			vAssert(json.Unmarshal(evs[i].Data, &d) == nil, "record-decodes")
+			vAssert(d.N == wants[i].n, "record-decodes-to-published-value")
+		case 5:
+			var d evA
 			vAssert(json.Unmarshal(evs[i].Data, &d) == nil, "record-decodes")
 			vAssert(d.N == wants[i].n, "record-decodes-to-published-value")
 		case 4:
